@@ -2615,3 +2615,267 @@ CASES += [
             Some(x) => x.neg(),
         }"""),
 ]
+
+_SM_OLD = """            BddPtr::Reg(_) | BddPtr::PtrTrue | BddPtr::PtrFalse => {
+                let smoothed_node = BddNode::new(
+                    level_var,
+                    self.smooth_helper(bdd, current + 1, total),
+                    self.smooth_helper(bdd, current + 1, total),
+                );
+                self.get_or_insert(smoothed_node)
+            }"""
+_SM_NEW = """            BddPtr::PtrTrue => self.smooth_tail(current, total),
+            BddPtr::PtrFalse => self.smooth_tail(current, total).neg(),
+            BddPtr::Reg(_) => {
+                let below = self.smooth_helper(bdd, current + 1, total);
+                self.get_or_insert(BddNode::new(level_var, below, below))
+            }"""
+_SM_FIELD = ("""    order: RefCell<VarOrder>,
+}""", """    order: RefCell<VarOrder>,
+    smooth_tails: RefCell<%s>,
+}""")
+_SM_INIT = ("""            stats: RefCell::new(BddBuilderStats::new()),
+        }""", """            stats: RefCell::new(BddBuilderStats::new()),
+            smooth_tails: RefCell::new(%s),
+        }""")
+_SM_AT = """    fn smooth_helper(&'a self, bdd: BddPtr<'a>, current: usize, total: usize) -> BddPtr<'a> {"""
+
+CASES += [
+    # ------------------------------------------------------------------ GL12 on-demand table (round 10: C08-r10m1)
+    dict(name="gl12-smooth-tails-indexed-by-remaining", file=B, rule="GL", props=["C08", "C19"], expect="GL12:on-demand-table:smooth_tails",
+         old=_SM_OLD, new=_SM_NEW,
+         more=[(B, _SM_FIELD[0], _SM_FIELD[1] % "Vec<BddPtr<'a>>"), (B, _SM_INIT[0], _SM_INIT[1] % "vec![BddPtr::PtrTrue]"),
+               (B, _SM_AT, """    fn smooth_tail(&'a self, current: usize, total: usize) -> BddPtr<'a> {
+        let remaining = total - current;
+        let mut tails = self.smooth_tails.borrow_mut();
+        while tails.len() <= remaining {
+            let level_var = self.order.borrow().var_at_level(total - tails.len());
+            let below = tails[tails.len() - 1];
+            let tail = self.get_or_insert(BddNode::new(level_var, below, below));
+            tails.push(tail);
+        }
+        tails[remaining]
+    }
+
+""" + _SM_AT)]),
+    dict(name="gl12-smooth-tails-keyed-by-both-ok", file=B, rule="GL", props=["C08", "C19"], expect=None,
+         old=_SM_OLD, new=_SM_NEW,
+         more=[(B, _SM_FIELD[0], _SM_FIELD[1] % "std::collections::HashMap<(usize, usize), BddPtr<'a>>"),
+               (B, _SM_INIT[0], _SM_INIT[1] % "std::collections::HashMap::new()"),
+               (B, _SM_AT, """    fn smooth_tail(&'a self, current: usize, total: usize) -> BddPtr<'a> {
+        if current >= total {
+            return BddPtr::PtrTrue;
+        }
+        if let Some(t) = self.smooth_tails.borrow().get(&(current, total)) {
+            return *t;
+        }
+        let below = self.smooth_tail(current + 1, total);
+        let level_var = self.order.borrow().var_at_level(current);
+        let tail = self.get_or_insert(BddNode::new(level_var, below, below));
+        self.smooth_tails.borrow_mut().insert((current, total), tail);
+        tail
+    }
+
+""" + _SM_AT)]),
+]
+
+CASES += [
+    # ------------------------------------------------------------------ SL4 the caller's bound (round 10: C08-r10m2)
+    dict(name="sl4-constant-chain-counted-from-the-order", file=B, rule="SL", props=["C08", "C19"], expect="smooth_helper:return-as-is",
+         old=_SM_OLD,
+         new="""            BddPtr::PtrTrue | BddPtr::PtrFalse => {
+                let order = self.order.borrow();
+                order
+                    .reverse_in_order_iter()
+                    .take(order.num_vars() - current)
+                    .fold(bdd, |below, var| {
+                        self.get_or_insert(BddNode::new(var, below, below))
+                    })
+            }
+            BddPtr::Reg(_) => {
+                let below = self.smooth_helper(bdd, current + 1, total);
+                self.get_or_insert(BddNode::new(level_var, below, below))
+            }"""),
+    dict(name="sl4-order-size-only-asserted-ok", file=B, rule="SL", props=["C08", "C19"], expect=None,
+         old="""        debug_assert!(current <= total);
+        if current >= total {""",
+         new="""        debug_assert!(current <= total);
+        debug_assert!(total - current <= self.order.borrow().num_vars());
+        if current >= total {"""),
+]
+
+ALLAPP = "src/builder/cache/all_app.rs"
+_CK = """fn commutative_key<'a, T: DDNNFPtr<'a>>(f: T, g: T, h: T) -> (T, T, T) {
+    let rank = |x: &T| {
+        let mut hasher = rustc_hash::FxHasher::default();
+        x.hash(&mut hasher);
+        std::hash::Hasher::finish(&hasher)
+    };
+    if %s && rank(&g) < rank(&f) {
+        (g, f, h)
+    } else {
+        (f, g, h)
+    }
+}
+
+impl<'a, T: DDNNFPtr<'a>> IteTable<'a, T> for AllIteTable<T> {"""
+_CK_MORE = [(ALLAPP, """                self.table
+                    .insert((f, g, h), if compl { res.neg() } else { res });""",
+             """                self.table
+                    .insert(commutative_key(f, g, h), if compl { res.neg() } else { res });"""),
+            (ALLAPP, """                let r = self.table.get(&(f, g, h));""", """                let r = self.table.get(&commutative_key(f, g, h));""")]
+
+CASES += [
+    # ------------------------------------------------------------------ GL13 rewritten keys (C01-r4m2 re-examined in round 10)
+    dict(name="gl13-key-swapped-for-any-constant-else-branch", file=ALLAPP, rule="GL", props=["C01", "C03", "C16"],
+         expect="AllIteTable:GL13:key-denotes-the-triple",
+         old="""impl<'a, T: DDNNFPtr<'a>> IteTable<'a, T> for AllIteTable<T> {""",
+         new=_CK % "(h.is_true() || h.is_false())", more=_CK_MORE),
+    dict(name="gl13-key-swapped-for-conjunctions-only-ok", file=ALLAPP, rule="GL", props=["C01", "C03", "C16"], expect=None,
+         old="""impl<'a, T: DDNNFPtr<'a>> IteTable<'a, T> for AllIteTable<T> {""",
+         new=_CK % "h.is_false()", more=_CK_MORE),
+]
+
+_MM_OLD = """    let mut result: u128 = 0;
+    let mut a = a % P;
+    let mut b = b;
+    while b > 0 {
+        if b & 1 == 1 {
+            result = (result + a) % P;
+        }
+        a = (a + a) % P;
+        b >>= 1;
+    }
+    result
+}"""
+_MM_NEW = """    thread_local! {
+        static RECENT: std::cell::RefCell<[(u128, u128, u128, u128); 256]> =
+            const { std::cell::RefCell::new([(0, 0, 0, 0); 256]) };
+    }
+    let key = %s;
+    let slot = ((key.1 ^ (key.1 >> 64) ^ key.2.rotate_left(7)) as usize) %% 256;
+    let (kp, ka, kb, product) = RECENT.with(|r| r.borrow()[slot]);
+    if %s == key {
+        return product;
+    }
+    let mut result: u128 = 0;
+    let (mut a, mut b) = (key.1, key.2);
+    while b > 0 {
+        if b & 1 == 1 {
+            result = (result + a) %% P;
+        }
+        a = (a + a) %% P;
+        b >>= 1;
+    }
+    RECENT.with(|r| r.borrow_mut()[slot] = (P, key.1, key.2, result));
+    result
+}"""
+
+CASES += [
+    # ------------------------------------------------------------------ GL14 static memo in a generic function (round 10: C13-r10m1)
+    dict(name="gl14-mul-mod-memo-shared-by-all-moduli", file=FF, rule="GL", props=["C13"], expect="mul_mod:GL14:static-memo-in-generic-fn",
+         old=_MM_OLD, new=_MM_NEW % ("(0u128, a % P, b % P)", "(0u128, ka, kb)")),
+    dict(name="gl14-mul-mod-memo-keyed-by-modulus-ok", file=FF, rule="GL", props=["C13"], expect=None,
+         old=_MM_OLD, new=_MM_NEW % ("(P, a % P, b % P)", "(kp, ka, kb)")),
+]
+
+_BT_FIELD = (BT, """    cap: usize,
+    /// the length of `tbl`""", """    cap: usize,
+    #[allow(dead_code)]
+    mask: usize,
+    /// the length of `tbl`""")
+_BT_INIT = (BT, """            cap: DEFAULT_SIZE,
+            len: 0,""", """            cap: DEFAULT_SIZE,
+            mask: DEFAULT_SIZE - 1,
+            len: 0,""")
+
+CASES += [
+    # ------------------------------------------------------------------ DI eager, arithmetic form (round 10: C04-r10m1)
+    dict(name="di-eager-mask-not-refreshed-by-grow", file=BT, rule="DI", props=["C04", "C02"], expect="grow:DI:eager:mask",
+         old="""        let mut pos: usize = (hash as usize) % self.cap;
+        // the distance this item is from its desired location
+        let mut psl = 0;
+
+        loop {
+            if self.is_occupied(pos) {
+                let cur_itm = self.tbl[pos].clone();
+                // first check the hashes to see if these elements could
+                // possibly be equal; if they are, check if the items are
+                // equal and return the found pointer if so""",
+         new="""        let mut pos: usize = (hash as usize) & self.mask;
+        // the distance this item is from its desired location
+        let mut psl = 0;
+
+        loop {
+            if self.is_occupied(pos) {
+                let cur_itm = self.tbl[pos].clone();
+                // first check the hashes to see if these elements could
+                // possibly be equal; if they are, check if the items are
+                // equal and return the found pointer if so""",
+         more=[_BT_FIELD, _BT_INIT]),
+    dict(name="di-eager-mask-refreshed-by-grow-ok", file=BT, rule="DI", props=["C04", "C02"], expect=None,
+         old="""        self.cap = new_sz;
+        let old = mem::replace""", new="""        self.cap = new_sz;
+        self.mask = new_sz - 1;
+        let old = mem::replace""",
+         more=[_BT_FIELD, _BT_INIT]),
+]
+
+SSD = "src/serialize/ser_sdd.rs"
+_SSD_PRED = (SSD, """impl SDDSerializer {
+    fn serialize_helper<'a>(""", """impl SDDSerializer {
+    fn is_compl(sdd: SddPtr) -> bool {
+        matches!(
+            sdd,
+            SddPtr::PtrFalse | SddPtr::Var(_, false) | SddPtr::ComplBDD(_) | SddPtr::Compl(_)
+        )
+    }
+
+    fn serialize_helper<'a>(""")
+_SSD_USE = ("""        let compl = matches!(
+            sdd,
+            SddPtr::PtrFalse | SddPtr::Var(_, false) | SddPtr::ComplBDD(_) | SddPtr::Compl(_)
+        );
+
+        let reg = match sdd {""", """        let compl = SDDSerializer::is_compl(sdd);
+
+        let reg = match sdd {""")
+
+CASES += [
+    # ------------------------------------------------------------------ CP root-is-helper-result (round 10: C17-r10m2)
+    dict(name="cp-sdd-terminal-root-boxed-and-negated-again", file=SSD, rule="CP", props=["C17"], expect="from_sdd:root-is-helper-result",
+         old=_SSD_USE[0], new=_SSD_USE[1],
+         more=[_SSD_PRED, (SSD, """        let r = SDDSerializer::serialize_helper(sdd, &mut table, &mut nodes);
+        SDDSerializer {
+            nodes,
+            roots: vec![r],
+        }""", """        let index = match SDDSerializer::serialize_helper(sdd, &mut table, &mut nodes) {
+            SerSDDPtr::Ptr { index, .. } => index,
+            terminal => {
+                nodes.push(SDDOr(vec![SDDAnd {
+                    prime: SerSDDPtr::True,
+                    sub: terminal,
+                }]));
+                nodes.len() - 1
+            }
+        };
+        let compl = SDDSerializer::is_compl(sdd);
+        SDDSerializer {
+            nodes,
+            roots: vec![SerSDDPtr::Ptr { index, compl }],
+        }""")]),
+    dict(name="cp-sdd-compl-predicate-extracted-ok", file=SSD, rule="CP", props=["C17"], expect=None,
+         old=_SSD_USE[0], new=_SSD_USE[1], more=[_SSD_PRED]),
+]
+
+CASES += [
+    # ------------------------------------------------------------------ BB3 bound by division (round 10: C12-r10m2)
+    dict(name="bb3-false-bound-rescaled-by-weight-quotient", file=RB, rule="BB", props=["C12"], expect="marginal_map_h:BB3:order",
+         old="""                let false_ub = self.marginal_map_eval(&false_model, &margvar_bits, wmc);""",
+         new="""                let false_ub = if margvar_bits.contains(x.value_usize()) {
+                    self.marginal_map_eval(&false_model, &margvar_bits, wmc)
+                } else {
+                    let (low_w, high_w) = wmc.var_weight(*x);
+                    RealSemiring(true_ub.0 * low_w.0 / high_w.0)
+                };"""),
+]
